@@ -303,6 +303,11 @@ impl<'a, SE: brush_core::ShellExtensions> Highlighter<'a, SE> {
             self.input_line,
         );
 
+        // Tokens are not always reported in text order: a here-document body follows its tag
+        // in the token stream, but in the text it comes after the rest of the tag's line. Text
+        // that has already been covered is never covered again.
+        let range = range.start.max(self.current_byte_index)..range.end.max(self.current_byte_index);
+
         // See if we need to cover a gap between this substring and the one that preceded it.
         if range.start > self.current_byte_index {
             let missing_kind = self.next_missing_kind.unwrap_or(HighlightKind::Comment);
